@@ -6,6 +6,10 @@ props = [json.loads(l) for l in open(os.path.join(ROOT, "properties.jsonl"))]
 
 # id -> (technique, level text, level note, design ref)
 CHECKS = {
+ "C19": ("differential + metamorphic test: observed EncodingIndicator sequence vs the reference tree builder's inserted meta elements and a char-based transcription of the extraction algorithm; exhaustive content strings over a token grammar; twin-document resumption check",
+         "For every generated document/fragment and chunking the sequence of indicators equals, in order, the labels of the HTML meta elements the reference inserted; the meta element is connected when feed() returns; the final tree equals the twin document's without declarations. Every content string of <=5 (thorough 7) tokens over 10 grammar tokens.",
+         "Cases whose tree differs from the reference are C02's (excluded, counted); labels are not validated.",
+         "DESIGN.md 4 C19"),
  "C02": ("differential testing against an independent reference tree builder (with the reference tokenizer): grammar-based generation, exhaustive short tag sequences, doctype table sweep; deviation switches attribute failures to listed known findings",
          "html5ever's DOM (ModelDom sink) and reported quirks mode are compared with a transcription of WHATWG 13.2.6 for generated documents and fragments under ~50 contexts and all option combinations of the property's domain; every sequence of <=2 (thorough 3) tag tokens over ~110 tokens in document mode and 8 fragment contexts; the whole quirks table in 5 spellings.",
          "Trusted: refimpl/treebuilder.rs + tb_modes.rs, written from memory of the living standard; select-relaxation rules are self-consistency only; iframe_srcdoc with a non-default initial quirks mode and select-context fragments containing <input> are excluded (counted).",
